@@ -335,16 +335,35 @@ pub fn workers_exit(rounds: u64) -> LiveResult {
     let mut detail = String::new();
     for r in 0..rounds {
         let base = thread_count();
-        let c = build(1000, 8, 0, 0);
-        let c2 = c.clone();
         let closing = r % 2 == 0;
+        // (a roomy buffer for the busy rounds: thousands of items are still queued at the drop)
+        // the busy rounds also slow the workers down (every hash they compute takes 20 µs): the backlog
+        // at the moment of the drop does not depend on how fast this machine happens to be
+        let c = build(1000, if closing { 8 } else { 16384 }, if closing { 0 } else { 20 }, 0);
+        let c2 = c.clone();
         // a handle dropped while the processor is still busy: the workers find their channels
         // disconnected in the middle of the work, not when idle
-        let burst = if closing || r % 4 == 1 { 10u64 } else { 4000 };
+        // (crossbeam's select! draws from a per-thread generator with a fixed seed: vary the amount of
+        // work so that the rounds do not all present the workers with the same sequence of choices)
+        let burst = if closing { 10u64 } else { 1500 + (r * 977) % 3000 };
+        // crossbeam's select! draws from a per-thread generator with a fixed seed, and every cache has a
+        // fresh processor thread: let the processor make a different number of choices in every round
+        // before the interesting one, or all rounds would see the same draw
+        for i in 0..(r * 5 + r / 2) % 23 {
+            let _ = c.insert(mk_key(100 + i, 0), i, 1);
+            let _ = c.wait();
+        }
         for i in 0..burst {
             let _ = c.insert(mk_key(i % 50, 0), i, 1);
         }
         let with_workers = thread_count();
+        if let Ok(f) = std::env::var("VERIF_DEBUG_FILE") {
+            use std::io::Write;
+            let backlog = stretto::verif::cache_snapshot(&c, |v| *v).insert_buf_len;
+            if let Ok(mut fh) = std::fs::OpenOptions::new().create(true).append(true).open(f) {
+                let _ = writeln!(fh, "round {} closing {} burst {} backlog {}", r, closing, burst, backlog);
+            }
+        }
         if closing {
             let _ = c.close();
         }
